@@ -88,6 +88,7 @@ pub fn extra_command(api: &dyn GlobalApi, cmd: &str, args: &[String]) -> i32 {
         "race" => return c07::race(api, num(2)),
         "c17-batch" => return c17::batch_child(api, args),
         "c17-one" => return c17::one_child(api, args),
+        "c17-corpus" => return c17::write_corpus(api, args.get(2).map(|s| s.as_str()).unwrap_or("."), num(3) as usize),
         _ => {}
     }
     eprintln!("unknown command {:?}; use: caps | selftest | run <ID> [--tier T] [--seed N] [--out F] [--sub a,b] | replay <file>", cmd);
